@@ -12,6 +12,7 @@
 //! Borrowing: see `borrow` below.
 
 mod corpus;
+mod finalisation;
 
 use serde::Deserialize;
 use serde_json::{Value, json};
@@ -309,7 +310,7 @@ fn compare_one(
                     let sig = if !bom && base.starts_with("\u{FEFF}\u{FEFF}") {
                         // same text on both sides: from_str removes two marks, the reader path one
                         let _ = &d;
-                        "C09:two-leading-boms:reader-differs-from-str".to_string()
+                        "C09:two-leading-boms:entry-points-differ".to_string()
                     } else {
                         format!("C09:{}:{}{}{}", e.name(), d, if bom { ":bom" } else { "" }, rare_features(base))
                     };
@@ -800,6 +801,11 @@ fn replay(run: &Run, case: &Value) {
     let bom = case["bom"].as_bool().unwrap_or(false);
     let ch = Chunking::from_json(&case["chunking"]);
     let mut l = Local::default();
+    if case["section"].as_str() == Some("finalisation") {
+        let t = targets::by_name(case["target"].as_str().unwrap_or("Val")).unwrap_or(targets::by_name("Val").unwrap());
+        finalisation::check_final(run, &mut l, &base, t, case["fopts"].as_u64().unwrap_or(0) as usize, &[ch]);
+        return;
+    }
     if case["section"].as_str() == Some("borrow") {
         let shape = match case["shape"].as_str() {
             Some("root") => Shape::Root,
@@ -1078,6 +1084,56 @@ fn main() {
             }
         }
     }
+
+    // ================= 8. finalisation: breaches evaluated at the end of the stream, budget reports
+    let fdocs: Vec<String> = {
+        let mut v = finalisation::documents();
+        v.extend(hand.iter().cloned());
+        v
+    };
+    run.count("finalisation_documents", fdocs.len() as u64);
+    let ftargets = target_list(&["Val", "VecString", "MapStrVal", "Ignored", "json"]);
+    par_range(if on(8) { fdocs.len() * 5 } else { 0 }, |ix| {
+        let mut l = Local::default();
+        let text = &fdocs[ix / 5];
+        let fv = ix % 5;
+        let chunkings = [Chunking::Every(1), Chunking::Whole, Chunking::Every(7)];
+        for (j, t) in ftargets.iter().enumerate() {
+            if !thorough && j >= 2 && (ix + j) % 2 == 0 {
+                continue;
+            }
+            finalisation::check_final(&run, &mut l, text, t, fv, &chunkings);
+        }
+        if ix % 101 == 0 {
+            run.sample(|| json!({"section": "finalisation", "fopts": fv, "text": text.chars().take(200).collect::<String>()}));
+        }
+        l.flush(&run);
+    });
+    // generated documents with anchors/aliases under the tightened ratio vectors
+    let n_fgen = tier.pick(4000usize, 40_000usize);
+    par_range(if on(8) { n_fgen } else { 0 }, |i| {
+        let mut rng = Rng::stream(run.seed, i as u64 ^ 0xf17a1);
+        let mut l = Local::default();
+        let mut text = corpus::random_document(&mut rng);
+        if !text.contains('*') {
+            // make sure aliases occur: wrap into a sequence with an anchored head and some aliases
+            let m = rng.range(1, 6);
+            let mut s = String::from("- &zz head\n");
+            for _ in 0..m {
+                s.push_str("- *zz\n");
+            }
+            if rng.bool() {
+                text = s;
+            }
+        }
+        let fv = 1 + rng.below(3);
+        let cuts: Vec<usize> = (1..text.len()).filter(|_| rng.chance(1, 4)).collect();
+        let chunkings = [Chunking::Every(1), Chunking::Cuts(cuts)];
+        let t = ftargets[i % ftargets.len()];
+        finalisation::check_final(&run, &mut l, &text, t, fv, &chunkings);
+        l.add("final_generated_documents", 1);
+        l.flush(&run);
+    });
 
     // ================= 7. borrowing
     let leaves = corpus::borrow_leaves();
